@@ -266,7 +266,7 @@ def c18(tier):
     runs = []
     for e in range(E):
         runs.append(dict(harness="verifHarness_C18", args=[1 if q else 2, e, (e + 3) % E]))
-    for e in ((1, 3) if q else (0, 1, 3, 4, 6)):
+    for e in (1, 3):
         runs.append(dict(harness="verifHarness_C18", args=[2 if q else 3, e, (e + 3) % E]))
     runs += [dict(harness="verifHarness_C18_lit", args=[k, QUERY]) for k in ((0, 1) if q else (0, 1, 2))]
     runs += fam(18, tier, cut=False, budget=1 if q else 2)
